@@ -5,6 +5,7 @@ Imports only DialsModel.Model.* and Gen.Facts (core Lean), so it links as a `lea
 import DialsModel.Model.Proto
 import DialsModel.Model.CaseConv
 import DialsModel.Model.RuntimeIO
+import DialsModel.Model.OverlayIO
 
 open Dials Dials.Proto
 
@@ -49,6 +50,7 @@ structure Session where
 def handle (ss : Session) (line : String) : Session × String :=
   match line.trimAscii.toString.splitOn " " with
   | "cc" :: rest => (ss, handleCC rest)
+  | "ov" :: rest => (ss, Overlay.handleOv rest)
   | "rt" :: rest =>
     let (st, out) := Runtime.handleRt ss.rt rest
     ({ ss with rt := st }, (out.replace "\n" " "))
